@@ -474,7 +474,7 @@ var c14errs = []error{
 	&c14Err{1}, &c14Err{2}, c14ValErr{"boom"}, c14ObjErr{7}, c14StrErr{"x"}, (*c14Err)(nil),
 	errors.New("plain"), fmt.Errorf("wrapped: %w", errors.New("inner")),
 }
-var c14keys = []string{"k", "key", "", "error", "ignored", "a b", "kéy", "invalid", "x\x00y"}
+var c14keys = []string{"k", "key", "", "error", "ignored", "a b", "kéy", "invalid", "x\x00y", "line\n", "\n"}
 
 func c14fields() []zap.Field {
 	return []zap.Field{
@@ -650,7 +650,7 @@ func c14(ctx *Ctx) {
 	// 2. exhaustive: every sequence over {field, error, string, other, nil} up to length K through Infow
 	K := 5
 	if ctx.Thorough {
-		K = 7
+		K = 6
 	}
 	var rec func(prefix []int)
 	rec = func(prefix []int) {
@@ -680,7 +680,7 @@ func c14(ctx *Ctx) {
 	// 3. random programs
 	N := 2500
 	if ctx.Thorough {
-		N = 150000
+		N = 50000
 	}
 	maxLen := 12
 	if ctx.Thorough {
